@@ -301,8 +301,8 @@ func cmdCheck(args []string) {
 		}
 	}
 	tSolve := time.Now()
-	dischargeAll(jobs, work, quickS, fullS, all, 16)
-	dischargeAll(feas, filepath.Join(work, "canary"), 2, 2, false, 16)
+	dischargeAll(jobs, work, quickS, fullS, all, solverWorkers())
+	dischargeAll(feas, filepath.Join(work, "canary"), 2, 2, false, solverWorkers())
 	solveWall := time.Since(tSolve).Seconds()
 
 	// aggregate by name
